@@ -101,7 +101,9 @@ def op_recursion(rng, src):
     old = sys.getrecursionlimit()
     text = rng.choice(['select ' + '(' * 300 + ')' * 300,
                        'select ' + 'case when a then ' * 200 + ' end' * 200,
-                       'select a' + '[' * 400 + ']' * 400])
+                       'select a' + '[' * 400 + ']' * 400,
+                       'select ' + 'f(' * 300 + '1' + ')' * 300
+                       + '; select 2; select 3'])
     sys.setrecursionlimit(rng.choice([80, 120, 200]))
     try:
         try:
